@@ -311,6 +311,19 @@ func (d *duplexHTTPCall) makeRequest() {
 			select {
 			case <-done:
 				d.SetError(d.ctx.Err())
+				// Closing the pipe doesn't reach a transport that is waiting for
+				// something else - an HTTP/2 stream out of flow-control window, with
+				// the response already there: then nothing ends the response body
+				// either, and whoever reads it (a pending Receive, CloseRead's drain)
+				// waits for a peer that waits for us. Closing the body resets the
+				// stream.
+				select {
+				case <-d.responseReady:
+					if d.response != nil {
+						_ = d.response.Body.Close()
+					}
+				case <-d.readClosed:
+				}
 			case <-d.readClosed:
 			}
 		}()
